@@ -1,8 +1,14 @@
 (* C14: field set, removal and extraction against the path resolver.
    Statements of FieldSetLaws_statements.v with [wf_schema s] replaced by
-   [schema_ok s R -> R tr] (Proofs/SchemaOk.v).  Two of the five statements are false as
+   [schema_ok s R -> R tr] (Proofs/SchemaOk.v).  Three of the five statements are false as
    given; the counterexamples and the repaired variants are below:
-   - to_field_set_ok needs [family_refs s R] (no "separable" lists): to_field_set_ok_family;
+   - the walkers ignore the error of listItemToPathElement and go on with the zero path
+     element ([pe_zero], Model/Walk.v), so that the members of a granular list that is not
+     associative ("separable") all get that element: the field set then holds paths that
+     designate nothing, and extracting its leaves does not give the object back.
+     field_set_paths_resolve and extract_all_leaves need [family_refs s R] (every list
+     reached is associative or atomic): field_set_paths_resolve_needs_family,
+     extract_all_leaves_needs_family;  to_field_set_ok_family is stated for the family too;
    - remove_absent needs the removal set not to split a keyed member from its key
      fields ([keys_closed items]): remove_absent_keys_closed.
    Proofs: FieldSetMirrors, FieldSetBase, FieldSetShape, FieldSetPaths, RemoveBase,
@@ -31,11 +37,11 @@ Qed.
 
 (* every path in an object's field set designates a node of the object *)
 Theorem field_set_paths_resolve : forall s R tr v fs p,
-  schema_ok s R -> R tr -> wf_value v = true -> conforms s tr true v = true ->
+  schema_ok s R -> R tr -> family_refs s R -> wf_value v = true -> conforms s tr true v = true ->
   to_field_set s tr v = Some fs -> wf_path p = true -> ps_has p fs = true ->
   present s tr v p = true.
 Proof.
-  intros s R tr v fs p Hok Htr Hwf Hc Hfs Hp Hhas. rewrite to_field_set_eq in Hfs.
+  intros s R tr v fs p Hok Htr Hfam Hwf Hc Hfs Hp Hhas. rewrite to_field_set_eq in Hfs.
   destruct (fse s tr v) eqn:Hfse; [discriminate|]. inversion Hfs; subst fs. clear Hfs.
   assert (Hne : p <> []) by (intros ->; discriminate).
   pose proof (fsp_wf_all s R Hok v tr Htr Hwf) as Hall.
@@ -43,7 +49,7 @@ Proof.
   unfold pmem in Hhas. apply existsb_exists in Hhas. destruct Hhas as (q & Hq & Hpq).
   rewrite forallb_forall in Hall.
   rewrite (present_patheqb s R Hok p q Hpq Hp (Hall q Hq) v tr Htr Hwf).
-  apply (fsp_present s R Hok v tr q Htr Hwf Hfse Hq).
+  apply (fsp_present s R Hok Hfam v tr q Htr Hwf Hc Hq).
 Qed.
 
 (* removing nothing changes nothing (roots that are granular containers) *)
@@ -55,13 +61,14 @@ Proof. intros s R tr v _ _ _ _ _ Hk. apply remove_nothing_gen. exact Hk. Qed.
 
 (* extracting all leaf paths of the field set reproduces the object (plain objects) *)
 Theorem extract_all_leaves : forall s R tr v fs,
-  schema_ok s R -> R tr -> wf_value v = true -> conforms s tr false v = true -> plain v = true ->
+  schema_ok s R -> R tr -> family_refs s R -> wf_value v = true -> conforms s tr false v = true ->
+  plain v = true ->
   to_field_set s tr v = Some fs ->
   extract s tr false v (ps_leaves fs) = v.
 Proof.
-  intros s R tr v fs Hok Htr Hwf Hc Hpl Hfs. rewrite to_field_set_eq in Hfs.
+  intros s R tr v fs Hok Htr Hfam Hwf Hc Hpl Hfs. rewrite to_field_set_eq in Hfs.
   destruct (fse s tr v) eqn:Hfse; [discriminate|]. inversion Hfs; subst fs. clear Hfs.
-  unfold extract. apply (extract_gen s R Hok); auto.
+  unfold extract. apply (extract_gen s R Hok Hfam); auto.
   apply leaves_of_root. apply (fsp_wf_all s R Hok); assumption.
 Qed.
 
@@ -115,8 +122,9 @@ Proof.
 Qed.
 
 (* ------------------------------------------------------------------ *)
-(* to_field_set_ok is false without [family_refs]: a conforming "separable" list has no
-   field set (listItemToPathElement fails on its members) *)
+(* without [family_refs]: listItemToPathElement fails on the members of a conforming
+   "separable" list, the walkers go on with the zero path element, and the field set
+   holds a path that designates nothing *)
 Definition sep_tr := TR None (Atom None (Some (ListT ex_str RSeparable [])) None) None.
 Definition sep_R (tr : typeref) : Prop := In tr [sep_tr; ex_str].
 
@@ -131,21 +139,71 @@ Proof.
       vm_compute in Hr; inversion Hr; subst a; reflexivity.
 Qed.
 
-Example to_field_set_ok_counterexample :
+Example field_set_paths_resolve_counterexample :
   (wf_value (VList [VStr "a"]), conforms [] sep_tr true (VList [VStr "a"]),
-   to_field_set [] sep_tr (VList [VStr "a"])) = (true, true, None).
+   to_field_set [] sep_tr (VList [VStr "a"]),
+   wf_path [pe_zero], ps_has [pe_zero] (ps_of_paths [[pe_zero]; [pe_zero]]),
+   present [] sep_tr (VList [VStr "a"]) [pe_zero])
+  = (true, true, Some (ps_of_paths [[pe_zero]; [pe_zero]]), true, true, false).
 Proof. vm_compute. reflexivity. Qed.
 
-Theorem to_field_set_ok_false :
-  ~ (forall s R tr v,
+Theorem field_set_paths_resolve_needs_family :
+  ~ (forall s R tr v fs p,
        schema_ok s R -> R tr -> wf_value v = true -> conforms s tr true v = true ->
-       exists fs, to_field_set s tr v = Some fs /\ ps_ok fs = true).
+       to_field_set s tr v = Some fs -> wf_path p = true -> ps_has p fs = true ->
+       present s tr v p = true).
 Proof.
   intros H.
-  destruct (H [] sep_R sep_tr (VList [VStr "a"]) sep_schema_ok) as (fs & Hfs & _);
-    try (vm_compute; reflexivity).
-  - unfold sep_R. simpl. auto.
-  - vm_compute in Hfs. discriminate.
+  assert (Hf : present [] sep_tr (VList [VStr "a"]) [pe_zero] = true).
+  { apply (H [] sep_R sep_tr (VList [VStr "a"]) (ps_of_paths [[pe_zero]; [pe_zero]]) [pe_zero]
+             sep_schema_ok); try (vm_compute; reflexivity).
+    unfold sep_R. simpl. auto. }
+  vm_compute in Hf. discriminate.
+Qed.
+
+(* the same for extraction: the two members of a separable list of maps share the zero
+   path element, the walker records it as a duplicated (leaf) member without descending,
+   and extracting that leaf empties both members *)
+Definition sepm_item_tr :=
+  TR None (Atom None None (Some (MapT [SField "x" ex_num None; SField "y" ex_num None]
+                                      empty_tr RUnset))) None.
+Definition sepm_tr := TR None (Atom None (Some (ListT sepm_item_tr RSeparable [])) None) None.
+Definition sepm_R (tr : typeref) : Prop := In tr [sepm_tr; sepm_item_tr; ex_num; empty_tr].
+Definition sepm_v := VList [VMap [("x", VInt 1)]; VMap [("y", VInt 2)]].
+
+Example sepm_schema_ok : schema_ok [] sepm_R.
+Proof.
+  constructor.
+  - intros tr a t Htr Hr Ha. unfold sepm_R in *. split_in Htr;
+      vm_compute in Hr; inversion Hr; subst a; simpl in Ha; inversion Ha; subst t; simpl; auto.
+  - intros tr a m k Htr Hr Ha. unfold sepm_R in *. split_in Htr;
+      vm_compute in Hr; inversion Hr; subst a; simpl in Ha; inversion Ha; subst m;
+      unfold field_type; simpl;
+      repeat (match goal with |- context [String.eqb ?x ?y] => destruct (String.eqb x y) end; simpl);
+      auto 10.
+  - intros tr a Htr Hr. unfold sepm_R in *. split_in Htr;
+      vm_compute in Hr; inversion Hr; subst a; reflexivity.
+Qed.
+
+Example extract_all_leaves_counterexample :
+  (wf_value sepm_v, conforms [] sepm_tr false sepm_v, plain sepm_v,
+   to_field_set [] sepm_tr sepm_v,
+   extract [] sepm_tr false sepm_v (ps_leaves (ps_of_paths [[pe_zero]])))
+  = (true, true, true, Some (ps_of_paths [[pe_zero]]), VList [VNull; VNull]).
+Proof. vm_compute. reflexivity. Qed.
+
+Theorem extract_all_leaves_needs_family :
+  ~ (forall s R tr v fs,
+       schema_ok s R -> R tr -> wf_value v = true -> conforms s tr false v = true ->
+       plain v = true -> to_field_set s tr v = Some fs ->
+       extract s tr false v (ps_leaves fs) = v).
+Proof.
+  intros H.
+  assert (Hf : extract [] sepm_tr false sepm_v (ps_leaves (ps_of_paths [[pe_zero]])) = sepm_v).
+  { apply (H [] sepm_R sepm_tr sepm_v (ps_of_paths [[pe_zero]]) sepm_schema_ok);
+      try (vm_compute; reflexivity).
+    unfold sepm_R. simpl. auto. }
+  vm_compute in Hf. discriminate.
 Qed.
 
 (* remove_absent is false without [keys_closed]: removing the key field of a keyed list
